@@ -67,7 +67,7 @@ theorem insertResult_valueError (chain ins : List Nat) (pos : List Int)
     · exact h
 
 /-- `tensor_merge` (as many positions as factors of `ins`, enough einsum letters) succeeds iff every
-position lies in `[-ndim, ndim]`. -/
+position lies in `[-ndim, ndim]`; otherwise `IndexError` (`ZeroDivisionError` for an empty chain). -/
 theorem positions_rejected_iff_merge (chain ins : List Nat) (pos : List Int) (rank : Nat)
     (hl : pos.length = ins.length) (hlet : (ins.length + chain.length) * rank ≤ 52) :
     ((∃ r, mergeSlots chain ins pos rank = .ok r) ↔
@@ -76,13 +76,13 @@ theorem positions_rejected_iff_merge (chain ins : List Nat) (pos : List Int) (ra
         e = if chain.length = 0 then "ZeroDivisionError" else "IndexError") := by
   unfold mergeSlots
   have h1 : ¬ (ins.length + chain.length) * rank > nLetters := by simp [nLetters]; omega
-  have h2 : ¬ pos.length < ins.length := by omega
+  rw [if_neg (by omega)]
   constructor
   · rw [← normAll_ok_iff]
-    cases normAll chain.length pos <;> simp [h1, h2]
+    cases normAll chain.length pos <;> simp [h1]
   · intro e he
     cases hn : normAll chain.length pos with
-    | ok np => rw [hn] at he; simp [h1, h2] at he
+    | ok np => rw [hn] at he; simp [h1] at he
     | error e' =>
       rw [hn] at he; injection he with he
       rw [← he]; exact normAll_error_class _ _ _ hn
@@ -208,85 +208,79 @@ example : tensorChain [[0], [1], [2], [3], [4]] = some [0, 1, 2, 3, 4] := by dec
 /-! ### (e) `tensor_merge` -/
 
 /-- **`tensor_merge` = `tensor_insert` on the chain**, slot by slot.  For every chain, every `ins`
-chain, every admissible position list of the same length and every rank such that the letters of
-`ins` are all lower case (`ins_ndim * rank ≤ 26`) and at most 52 letters are needed, every one of
-the `rank` index slots of the output subscripts lists the factors in the order `insertSpec`.
-
-The hypothesis `ins_ndim * rank ≤ 26` is needed: `sorted(zip(norm_pos, ins_part))` compares the
-*letters* when positions tie and `string.ascii_letters` is not increasing in character code
-(`'Z' < 'a'`); see `merge_letter_order_defect`. -/
+chain, every admissible position list of the same length and every rank for which the 52 letters of
+`string.ascii_letters` suffice, every one of the `rank` index slots of the output subscripts lists
+the factors in the order `insertSpec` (ties between equal positions keep the order of `ins`,
+whatever the letters — `sorted(zip(norm_pos, range(ins_ndim), ins_part))`). -/
 theorem mergeSlots_spec (chain ins : List Nat) (pos : List Int) (rank : Nat)
     (hl : pos.length = ins.length)
     (hadm : ∀ p ∈ pos, -(chain.length : Int) ≤ p ∧ p ≤ chain.length)
-    (hlow : ins.length * rank ≤ 26) (hlet : (ins.length + chain.length) * rank ≤ 52) :
-    mergeSlots chain ins pos rank
-      = .ok (List.replicate rank
-          (insertSpec 0 chain ((pos.map (normNat chain.length)).zip ins))) := by
-  unfold mergeSlots
-  rw [normAll_admissible hadm]
-  simp only
-  rw [if_neg (by simp [nLetters]; omega), if_neg (by omega)]
-  congr 1
-  unfold mergeOutSlots
-  simp only [List.map_map]
-  apply map_range_const
-  intro r hr
-  simp only [Function.comp_apply]
-  apply mergeSlot_factors chain ins _ rank r hr hlow hlet
-  intro q hq
-  rw [List.mem_map] at hq
-  obtain ⟨p, hp, rfl⟩ := hq
-  exact normNat_le (hadm p hp)
-
-/-- Variant of `mergeSlots_spec` without the lower-case restriction: when the normalised positions
-are pairwise distinct the letters are never compared, so every slot has the order `insertSpec` as
-soon as at most 52 letters are needed.  (The letter-order defect needs tied positions.) -/
-theorem mergeSlots_spec_distinct (chain ins : List Nat) (pos : List Int) (rank : Nat)
-    (hl : pos.length = ins.length)
-    (hadm : ∀ p ∈ pos, -(chain.length : Int) ≤ p ∧ p ≤ chain.length)
-    (hnd : (pos.map (normNat chain.length)).Nodup)
     (hlet : (ins.length + chain.length) * rank ≤ 52) :
     mergeSlots chain ins pos rank
       = .ok (List.replicate rank
           (insertSpec 0 chain ((pos.map (normNat chain.length)).zip ins))) := by
   unfold mergeSlots
-  rw [normAll_admissible hadm]
+  rw [if_neg (by omega), normAll_admissible hadm]
   simp only
-  rw [if_neg (by simp [nLetters]; omega), if_neg (by omega)]
+  rw [if_neg (by simp [nLetters]; omega)]
   congr 1
   unfold mergeOutSlots
   simp only [List.map_map]
   apply map_range_const
   intro r hr
   simp only [Function.comp_apply]
-  apply mergeSlot_factors_distinct chain ins _ rank r hr hlet _ hnd
+  apply mergeSlot_factors chain ins _ rank r hr hlet
   intro q hq
   rw [List.mem_map] at hq
   obtain ⟨p, hp, rfl⟩ := hq
   exact normNat_le (hadm p hp)
+
+/-- `len(string.ascii_letters)`: the letter limit in `mergeSlots_spec` / `insertSubscripts_slots` -/
+example : nLetters = 52 ∧ letters.length = 52 := by decide
 
 /-- `mergeResult_spec`: under the hypotheses of `mergeSlots_spec` and `rank ≥ 1`, `tensor_merge`
 returns the Kronecker chain with factor order `insertSpec`. -/
 theorem mergeResult_spec (chain ins : List Nat) (pos : List Int) (rank : Nat) (hr : 0 < rank)
     (hl : pos.length = ins.length)
     (hadm : ∀ p ∈ pos, -(chain.length : Int) ≤ p ∧ p ≤ chain.length)
-    (hlow : ins.length * rank ≤ 26) (hlet : (ins.length + chain.length) * rank ≤ 52) :
+    (hlet : (ins.length + chain.length) * rank ≤ 52) :
     mergeResult chain ins pos rank
       = .ok (insertSpec 0 chain ((pos.map (normNat chain.length)).zip ins)) := by
   unfold mergeResult
-  rw [mergeSlots_spec chain ins pos rank hl hadm hlow hlet]
+  rw [mergeSlots_spec chain ins pos rank hl hadm hlet]
   obtain ⟨n, rfl⟩ : ∃ n, rank = n + 1 := ⟨rank - 1, by omega⟩
   simp [List.replicate_succ]
 
 /-- Merging `ins` at `pos` gives the same factor order as inserting its factors one by one with
-`tensor_insert` (same hypotheses, `ins` non-empty because `tensor_insert` rejects zero args). -/
+`tensor_insert` (`ins` non-empty because `tensor_insert` rejects zero args). -/
 theorem mergeResult_eq_insertResult (chain ins : List Nat) (pos : List Int) (rank : Nat)
     (hr : 0 < rank) (h0 : ins ≠ []) (hl : pos.length = ins.length)
     (hadm : ∀ p ∈ pos, -(chain.length : Int) ≤ p ∧ p ≤ chain.length)
-    (hlow : ins.length * rank ≤ 26) (hlet : (ins.length + chain.length) * rank ≤ 52) :
+    (hlet : (ins.length + chain.length) * rank ≤ 52) :
     mergeResult chain ins pos rank = insertResult chain ins pos := by
-  rw [mergeResult_spec chain ins pos rank hr hl hadm hlow hlet,
+  rw [mergeResult_spec chain ins pos rank hr hl hadm hlet,
     insertResult_spec chain ins pos h0 hl hadm]
+
+/-- `tensor_merge` raises `ValueError` exactly when `len(pos)` differs from the number of factors
+of `ins` (provided the 52 letters suffice; the check comes first, before the positions are
+looked at). -/
+theorem mergeResult_valueError_iff_length (chain ins : List Nat) (pos : List Int) (rank : Nat)
+    (hlet : (ins.length + chain.length) * rank ≤ 52) :
+    mergeResult chain ins pos rank = .error "ValueError" ↔ pos.length ≠ ins.length := by
+  constructor
+  · intro h hl
+    unfold mergeResult at h
+    cases hs : mergeSlots chain ins pos rank with
+    | ok ss => rw [hs] at h; cases h
+    | error e =>
+      rw [hs] at h
+      injection h with h
+      have := (positions_rejected_iff_merge chain ins pos rank hl hlet).2 e hs
+      rw [h] at this
+      split at this <;> simp at this
+  · intro hl
+    unfold mergeResult mergeSlots
+    rw [if_pos hl]
 
 /-- mixed negative / non-negative positions -/
 example : mergeResult [0, 1, 2] [3, 4] [-1, 0] 2 = .ok [4, 0, 1, 3, 2]
@@ -294,27 +288,24 @@ example : mergeResult [0, 1, 2] [3, 4] [-1, 0] 2 = .ok [4, 0, 1, 3, 2]
 
 example : mergeResult [0, 1, 2] [3, 4] [1, 2] 2 = .ok [0, 3, 1, 4, 2] := by decide
 example : mergeResult [0, 1] [2, 3, 4] [-2, 2, 0] 1 = .ok [2, 4, 0, 1, 3] := by decide
+example : mergeResult [0, 1, 2] [3, 4] [1] 2 = .error "ValueError"
+    ∧ mergeResult [0, 1, 2] [3, 4] [1, 2, 9] 2 = .error "ValueError"
+    ∧ mergeResult [0, 1, 2] [3, 4] [1, 9] 2 = .error "IndexError" := by decide
 
-/-- **Defect of `tensor_merge` (letter order).**  With more than 26 letters for `ins`
-(`ins_ndim * rank > 26`) and tied positions the hypothesis of `mergeSlots_spec` cannot be dropped:
-rank 1, one factor in `arr`, 27 factors in `ins`, all positions `0`: the 27th factor (letter
-`'A'`, label 27) is put in front of the first 26 (letters `'a'…'z'`), whereas `tensor_insert`
-with the same positions keeps the argument order. -/
-theorem merge_letter_order_defect :
-    mergeResult [0] (List.range' 1 27) (List.replicate 27 0) 1
-        = .ok (27 :: List.range' 1 26 ++ [0]) ∧
-      insertResult [0] (List.range' 1 27) (List.replicate 27 0)
-        = .ok (List.range' 1 27 ++ [0]) := by
-  decide
-
-/-- Same defect for matrices (rank 2, 14 factors in `ins`, letters `'o'…'z','A','B'` in the
-second slot): the two index slots are ordered differently, the result is not the Kronecker chain of
-any ordering of the factors. -/
-theorem merge_letter_order_defect_rank2 :
+/-- The former inputs of the letter-order defect now give the documented chain: rank 1 with 27
+factors in `ins` (letters `'a'…'z','A'`), rank 2 with 14 (second slot `'o'…'z','A','B'`), all
+positions tied. -/
+example : mergeResult [0] (List.range' 1 27) (List.replicate 27 0) 1
+      = .ok (List.range' 1 27 ++ [0]) ∧
     mergeSlots [0] (List.range' 1 14) (List.replicate 14 0) 2
-        = .ok [List.range' 1 14 ++ [0], 13 :: 14 :: List.range' 1 12 ++ [0]] ∧
-      mergeResult [0] (List.range' 1 14) (List.replicate 14 0) 2 = .error "SlotMismatch" := by
-  decide
+      = .ok [List.range' 1 14 ++ [0], List.range' 1 14 ++ [0]] := by decide
+
+/-- Why the index component is needed: the previous tie-break by the letter
+(`sorted(zip(norm_pos, ins_part))`, `oldMergeLe`) put `'A'` (letter 26) in front of `'z'`
+(letter 25) for equal positions, because `string.ascii_letters` is not increasing in character code.
+-/
+example : (stableSort oldMergeLe [(0, 25), (0, 26)]).map (·.2) = [26, 25]
+    ∧ (mergeSorted [0, 0] [25, 26] 2).map (·.2) = [25, 26] := by decide
 
 /-! ### (f) `tensor_transpose` -/
 
@@ -325,7 +316,8 @@ theorem transposeResult_spec (chain order : List Nat) (rank : Nat)
     (hp : order.Perm (List.range chain.length)) :
     transposeResult chain order rank = .ok (order.map fun o => chain.getD o 0) := by
   unfold transposeResult
-  rw [if_pos (transpose_valid_of_perm rank chain.length order hp)]
+  rw [if_neg (by simp [(orderIsRange_iff order chain.length).2 hp]),
+    if_pos (transpose_valid_of_perm rank chain.length order hp)]
 
 /-- Slot consistency of the axes list: for every `order` of length `ndim` the `r`-th group of
 `ndim` new axes consists of the old axes `r*ndim + order[j]` (all in slot `r` when
@@ -337,25 +329,35 @@ theorem transposeAxes_slots (rank ndim : Nat) (order : List Nat) (hl : order.len
     (by intro r _; simp [hl])
   simpa [transposeAxes] using this
 
-/-- Inadmissible orders are rejected: for `rank ≥ 1`, `tensor_transpose` succeeds exactly when
-`order` (non-negative entries) is a permutation of `0..ndim-1`; otherwise `ValueError`. -/
-theorem transposeResult_ok_iff (chain order : List Nat) (rank : Nat) (hr : 0 < rank) :
+/-- Inadmissible orders are rejected: `tensor_transpose` succeeds exactly when `order` is a
+permutation of `0..ndim-1` (guard `sorted(order) != list(range(ndim))`); every rank. -/
+theorem transposeResult_ok_iff (chain order : List Nat) (rank : Nat) :
     (∃ r, transposeResult chain order rank = .ok r) ↔ order.Perm (List.range chain.length) := by
   constructor
   · rintro ⟨r, h⟩
     unfold transposeResult at h
     split at h
-    · rename_i hv; exact perm_of_transpose_valid rank _ order hr hv
     · cases h
+    · rename_i hv; exact (orderIsRange_iff order chain.length).1 (by simpa using hv)
   · intro hp; exact ⟨_, transposeResult_spec chain order rank hp⟩
 
-theorem transposeResult_rejected (chain order : List Nat) (rank : Nat) (hr : 0 < rank)
+/-- … and otherwise the outcome is `ValueError` (repeats, out-of-range entries, wrong length). -/
+theorem transposeResult_rejected (chain order : List Nat) (rank : Nat)
     (h : ¬ order.Perm (List.range chain.length)) :
     transposeResult chain order rank = .error "ValueError" := by
   unfold transposeResult
-  split
-  · rename_i hv; exact absurd (perm_of_transpose_valid rank _ order hr hv) h
-  · rfl
+  rw [if_pos]
+  cases hv : orderIsRange order chain.length with
+  | true => exact absurd ((orderIsRange_iff order chain.length).1 hv) h
+  | false => rfl
+
+/-- negative entries of `order` are rejected with `ValueError` -/
+theorem transposeResultInt_negative (chain : List Nat) (order : List Int) (rank : Nat)
+    (h : ∃ o ∈ order, o < 0) : transposeResultInt chain order rank = .error "ValueError" := by
+  unfold transposeResultInt
+  rw [if_pos]
+  obtain ⟨o, ho, hlt⟩ := h
+  exact List.any_eq_true.2 ⟨o, ho, by simpa using hlt⟩
 
 /-- identity permutation -/
 theorem transposeResult_id (chain : List Nat) (rank : Nat) :
@@ -390,9 +392,8 @@ example : transposeResult [10, 11, 12] [0, 0, 1] 2 = .error "ValueError" := by d
 example : transposeResult [10, 11, 12] [1, 0] 2 = .error "ValueError" := by decide
 example : (transposeResult [10, 11, 12] [1, 2, 0] 2).bind (fun c => transposeResult c [2, 1, 0] 2)
     = transposeResult [10, 11, 12] [0, 2, 1] 2 := by decide
-/-- negative entries of `order` are not rejected when there is no broadcast axis: `order = [-1, 0]`,
-rank 2, two factors gives the axes `[3, 0, 1, 2]`, accepted by NumPy, which mixes the two slots. -/
-example : transposeAxesInt 2 2 [-1, 0] = .ok [3, 0, 1, 2] := by decide
+example : transposeResultInt [10, 11] [-1, 0] 2 = .error "ValueError"
+    ∧ transposeResultInt [10, 11] [1, 0] 2 = .ok [11, 10] := by decide
 
 /-! ### (g) Pauli basis index maps -/
 
